@@ -209,6 +209,11 @@ bool QXmppRosterManager::handleStanza(const QDomElement &element)
         return false;
     }
 
+    // a roster request sent to a client gets the default error reply
+    if (element.attribute(u"type"_s) == u"get") {
+        return false;
+    }
+
     QXmppRosterIq rosterIq;
     rosterIq.parse(element);
 
